@@ -982,7 +982,7 @@ def rule_rangecoder(facts):
                 if q[0] == "field" and q[1] == "low":
                     return lo_
                 raise pat.NotEvaluable(q)
-            got = pat.reached_under(wl, ptw, 0, lfw, wcalls | set(cw.returns))
+            got = pat.reached_under(wl, ptw, 0, lfw, wcalls | set(cw.returns), strict=True)
             flushed = bool(got & wcalls)
             if flushed != (lo_ < 0xFF00_0000 or lo_ > 0xFFFF_FFFF):
                 bad = "with low = %#x write_low %s the cached bytes; they are decided exactly when low < 0xFF000000 or low > 0xFFFFFFFF" % (
